@@ -123,6 +123,7 @@ def apply(c):
             r is Ok ==> *old(position) <= *final(position), // @C01:cursor-monotone
             r is Ok ==> *final(position) <= data.len(), // @C01:cursor-in-bounds
             r is Ok ==> Self::wf_dec(data@, *old(position) as int, &r.unwrap(), *final(position) as int), // @C10:decoded-per-rfc,C02:decoded-per-rfc,C11:decoded-per-rfc
+            r is Err ==> forall|v: Self, e: int| !Self::wf_dec(data@, *old(position) as int, &v, e), // @C02:accepts-what-the-spec-decodes,C11:accepts-what-the-spec-decodes,C10:accepts-what-the-spec-decodes
 """)
     c.contract('dns/wire_format.rs', "pub trait WireFormat<'a> {", 'write_to', """
         requires self.wf_ok(),
